@@ -23,10 +23,11 @@ SeqToSet(q) == {q[i] : i \in 1..Len(q)}
 RECURSIVE SumCopies(_)
 SumCopies(S) == IF S = {} THEN 0 ELSE LET w == CHOOSE w \in S : TRUE IN w.copies + SumCopies(S \ {w})
 
-InitS(e) == [single |-> e.single, con |-> e.con, xf |-> EmptyFn, failed |-> {}, faults |-> FALSE,
+InitS(e) == [single |-> e.single, con |-> e.con, xf |-> EmptyFn, failed |-> {}, faults |-> FALSE, lossy |-> FALSE,
              cm |-> IF e.cmtu = 0 THEN 1152 ELSE e.cmtu, sm |-> IF e.smtu = 0 THEN 1152 ELSE e.smtu,
              mism |-> FALSE,      \* a datagram was larger than what its receiver is configured to accept: completion is not promised
              arr |-> {},          \* client datagrams that carried a block of a request body: [i, x, num, szx, copies]
+             sent1 |-> {},        \* the same, as the sender saw it: [x, num, szx, mid, gen]
              sdel |-> EmptyFn,    \* x -> sequence of [off, n] the server handler obtained
              cdel |-> EmptyFn,    \* x -> sequence of [off, n] the client handler obtained (success responses)
              nsrv |-> EmptyFn,    \* x -> number of server handler invocations
@@ -39,7 +40,7 @@ InitS(e) == [single |-> e.single, con |-> e.con, xf |-> EmptyFn, failed |-> {}, 
 XOfTok(st, tok) == {x \in DOMAIN st.xf : st.xf[x].tok = tok}
 XOfB1(st, bid)  == {x \in DOMAIN st.xf : st.xf[x].l1 >= 0 /\ st.xf[x].b1 = bid}
 XOfB2(st, bid)  == {x \in DOMAIN st.xf : st.xf[x].l2 >= 0 /\ st.xf[x].b2 = bid}
-Copies(v) == IF v = "d" THEN 0 ELSE IF v = "2" THEN 2 ELSE 1
+Copies(v) == IF v = "d" THEN 0 ELSE IF v \in {"2", "b"} THEN 2 ELSE 1
 LitOk(e) == e.lit = <<-1>> \/ e.bid < 0 \/ \A k \in 1..Len(e.lit) : e.lit[k] = Pat(e.bid, e.off + k - 1)
 SuccessCode(t) == IF t.l1 < 0 THEN 69 ELSE 68
 \* every block of x's request body reached the server at least k times
@@ -55,7 +56,7 @@ OnWire(st, e) ==
   LET st0 == IF e.node = "c" /\ e.ty = 0 /\ e.code >= 1 /\ e.code <= 31 THEN [st EXCEPT !.lastCon = e.mid, !.lastAcked = FALSE]
              ELSE IF e.node = "s" /\ e.ty = 2 /\ e.mid = st.lastCon /\ e.v # "d" THEN [st EXCEPT !.lastAcked = TRUE]
              ELSE st
-      st1 == [st0 EXCEPT !.faults = @ \/ e.v \in {"d", "2", "l"},
+      st1 == [st0 EXCEPT !.faults = @ \/ e.v \in {"d", "2", "b", "l"}, !.lossy = @ \/ e.v \notin {"p", "2", "b"},
                         !.mism = @ \/ (e.node = "s" /\ e.len > st.cm) \/ (e.node = "c" /\ e.len > st.sm)]
       isReq == e.code >= 1 /\ e.code <= 31
       isOk  == e.code >= 64 /\ e.code <= 95
@@ -70,8 +71,14 @@ OnWire(st, e) ==
                 num == IF hasB THEN e.b1[1] ELSE 0
                 m == IF hasB THEN e.b1[2] = 1 ELSE FALSE
                 st2 == [st1 EXCEPT !.arr = @ \cup {[i |-> e.i, x |-> x, num |-> num, szx |-> IF hasB THEN e.b1[3] ELSE 7, copies |-> Copies(e.v)]},
+                                   !.sent1 = @ \cup {[x |-> x, num |-> num, szx |-> IF hasB THEN e.b1[3] ELSE 7, mid |-> e.mid, gen |-> st.gen]},
                                    !.bw1 = IF m \/ num > 0 THEN @ \cup {x} ELSE @]
+                \* the sender's side of "once": while nothing has been lost or delayed (duplication only), a block of the request body goes out under
+                \* ONE message id - a duplicated 2.31 (Continue) is not a reason to send the next block again
+                again == e.node = "c" /\ ~st1.lossy /\ ~st1.mism
+                         /\ \E o \in st1.sent1 : o.x = x /\ o.num = num /\ o.szx = (IF hasB THEN e.b1[3] ELSE 7) /\ o.gen = st.gen /\ o.mid # e.mid
             IN IF e.pn # SliceLen(L, B, num) \/ m # More(L, B, num) THEN R(st2, "C09:block1-does-not-carry-the-slice-its-option-names")
+               ELSE IF again THEN R(st2, "C09:request-block-sent-again-under-a-new-message-id-although-nothing-was-lost")
                ELSE IF e.s1 >= 0 /\ e.s1 # L THEN R(st2, "C09:size1-differs-from-the-body-length")
                ELSE R(st2, "")
   ELSE IF isOk /\ e.pn > 0
